@@ -9,7 +9,7 @@ RULE = ('lookup/string: texts (ASCII and multi-byte UTF-8) of EVERY byte length 
         'strings), 0..63 (thread names) are enumerated in every run with pseudo-random content and encoded by the '
         'kernel-side chunk model; unrelated ordinary-domain records of the same thread and records of other threads '
         'are interleaved between the chunks. syscall: every path-taking decoder (66 names) x 0..7 lookups of '
-        'generated lengths, unrelated records anywhere in the window, some lookups exact repeats of the previous one (same vnode id, same text). Oracle: exactly one lookup/string trace per '
+        'generated lengths, unrelated records anywhere in the window, some lookups exact repeats of the previous one (same vnode id, same text), three windows per run with 1030 / 4100 / 5000 other threads starting calls inside them. Oracle: exactly one lookup/string trace per '
         'text, none for continuation records, exact text / vnode id / string id, global_strings[id] == text; the '
         'quoted path parameters of the enclosing call equal the looked-up paths in lookup order at the reviewed '
         'positions. Non-trivial: a text of >= 3 records or a window with >= 2 lookups; distinct by (decoder, lengths).')
@@ -46,7 +46,7 @@ def ascii_exact(n, seed):
 
 
 def noise(tid, seed, k):
-    code = ['INTERRUPT', 'DecrSet', 'BSC_pread_extended_info', 0x99990000, 'MACH_vm_page_release'][S.expand_words(seed, k)[0] % 5]
+    code = ['INTERRUPT', 'DecrSet', 'BSC_pread_extended_info', 0x99990000, 'MACH_vm_page_release', 'VFS_LOOKUP_DONE', 'VFS_LOOKUP_DONE'][S.expand_words(seed, k)[0] % 7]
     return SC.ev(tid, code, 0, seed, k + 1)
 
 
@@ -153,6 +153,10 @@ def prop_syscall(ctx, case):
         evs += EV.lookup_events(tid, vnode, raw)
     evs.append(SC.ev(tid, name, 2, seed, 1))
     evs = weave(evs[:-1], seed, tid, density) + [evs[-1]]
+    if case.get('crowd'):
+        # thousands of other threads begin calls of their own while this window (and one of its lookups) is open
+        cut = 1 + seed % (len(evs) - 1)
+        evs = evs[:cut] + [SC.ev(0x100000 + j, 'BSC_getpid', 1, seed + j, 0) for j in range(case['crowd'])] + evs[cut:]
     parser, traces = guard(feed, evs, case.get('same_tick', 0))
     from pykdebugparser.trace_handlers.fsystem import VfsLookup
     lk = [t for t in traces if isinstance(t, VfsLookup) and t.ktraces[0].tid == tid]
@@ -176,7 +180,7 @@ def prop_syscall(ctx, case):
             if got != f'"{exp}"':
                 raise Violation('path-param', f'{name} with {len(paths)} lookups: parameter {pos} is {got!r}, expected "{exp}"; text={txt!r}')
     ctx.note([name, lens, density > 0], nontrivial=len(lens) >= 2 or any(n > 56 for n in lens),
-             classes=[f'lookups:{min(len(lens), 3)}', *(['repeated-lookup'] if repeated else []), 'multi-path' if name not in PP.PATH_PARAMS or len(PP.PATH_PARAMS[name]) > 1 else 'one-path'])
+             classes=[f'lookups:{min(len(lens), 3)}', *(['repeated-lookup'] if repeated else []), *([f'crowd:{case["crowd"]}'] if case.get('crowd') else []), 'multi-path' if name not in PP.PATH_PARAMS or len(PP.PATH_PARAMS[name]) > 1 else 'one-path'])
 
 
 PROPS = {'text': prop_text, 'syscall': prop_syscall}
@@ -204,7 +208,10 @@ def run(ctx):
             lens = [lens_pool[(i + 3 * j + k) % len(lens_pool)] for j in range(k)]
             sc.append({'name': name, 'lens': lens, 'seed': base + i * 17 + k, 'density': (i + k) % 3, 'utf8': (i + k) % 4 == 0,
                        'same_tick': [0, 0, 2, 3, 50][(i + 2 * k) % 5], 'repeat': [0, 0, 2, 6, 4][(i + k) % 5]})
-    ctx.run_enum('syscall', sc, prop_syscall, exhaustive_label='every path-taking decoder x 0..7 lookups')
+    for k, n in enumerate([1030, 4100, 5000] if ctx.quick else [300, 1030, 2050, 4100, 5000, 8200, 16500]):
+        sc.append({'name': ['BSC_open', 'BSC_rename', 'BSC_stat64'][k % 3], 'lens': [100, 30][:1 + k % 2], 'seed': base + 900 + k, 'density': 0, 'utf8': False, 'same_tick': 0,
+                   'repeat': 0, 'crowd': n})
+    ctx.run_enum('syscall', sc, prop_syscall, exhaustive_label='every path-taking decoder x 0..7 lookups (+ windows with 1030..5000 other threads starting calls inside)')
     strat = st.fixed_dictionaries({'name': st.sampled_from(PATH_NAMES),
                                    'lens': st.lists(st.one_of(st.sampled_from(lens_pool), st.integers(0, 184)), max_size=7),
                                    'seed': S.u64, 'density': st.integers(0, 4), 'utf8': st.booleans(),
